@@ -16,6 +16,8 @@ CONSTANTS
   SaveLocks = TRUE
   TruncFirst = FALSE
   UnlinkLockWhenFinal = TRUE
+  Kinds = {"inc", "blind"}
+  KeepAbsentFields = FALSE
   StatBeforeLock = FALSE
   FreshUpdates = FALSE
   Reread = TRUE
